@@ -1,0 +1,5 @@
+//go:build !verif
+
+package dawn
+
+func verifPoint(name, label string) {}
